@@ -184,15 +184,18 @@ func c18Kinds[V any](vs *ValSpec[V], tier string) []UniverseDef {
 	// a read a few bytes past the end of a key leaves its allocation
 	exact := AlphaSpec{Name: "GCEXACTFIT", Free: []string{P(22) + "a", P(22) + "b", P(30) + "c", P(46) + "d", P(14) + "e"}, Probes: []string{P(12), P(22)}, NoAutoP: true,
 		Prefixes: []string{P(11), P(12), P(22), P(23)}}
+	// a 48-way node filled to the last slot and emptied from there again (slot numbers are index bytes minus one)
+	fan46 := FanUniverse(FanSpec{Name: "GCFAN48@46", Hold: 46, Present: 2, Absent: 3})
+	fan46.NoAutoP = true
 	for _, kt := range []string{"string", "[]byte"} {
 		kt := kt
-		for _, sp := range []AlphaSpec{alpha, fan, vlong, exact} {
+		for _, sp := range []AlphaSpec{alpha, fan, vlong, exact, fan46} {
 			sp := sp
 			if kt == "[]byte" && sp.Name != "GC5" {
 				continue
 			}
-			if sp.Name == "GCEXACTFIT" && !keyOnly {
-				continue // about key storage, not values
+			if (sp.Name == "GCEXACTFIT" || sp.Name == "GCFAN48@46") && !keyOnly {
+				continue // about key storage / slot arithmetic, not values
 			}
 			out = append(out, UniverseDef{Name: "alpha[" + kt + "]/" + sp.Name + tag, Build: func() *Universe {
 				u := NewAlphaUniverseD(sp, kt,
@@ -217,6 +220,17 @@ func c18Kinds[V any](vs *ValSpec[V], tier string) []UniverseDef {
 		u.Name += tag
 		return u
 	}})
+	if keyOnly {
+		// the hand-written collation lookups through a 48-way node with inner nodes below
+		cf := collFan("GCCFAN48", 20)
+		out = append(out, UniverseDef{Name: "collation[string,und]/GCCFAN48" + tag, Build: func() *Universe {
+			u := NewCollUniverseD(cf, und, "string", false, func(spec *KeySpec[string], index map[string]int) Driver {
+				return NewDriverV[string, V](art.NewCollationSortedTree[string, V](), spec, index, vs)
+			})
+			u.Name += tag
+			return u
+		}})
+	}
 	uops := intOps[uint64](func(k uint64) []byte { _, b := art.UnsignedBinaryKey[uint64]{}.Transform(k); return b })
 	out = append(out, UniverseDef{Name: "unsigned[uint64]/GC5" + tag, Build: func() *Universe {
 		u := NewNumUniverseD("unsigned", "uint64", NumSpec[uint64]{Name: "GC5", Free: []uint64{0, 1, 1 << 40, 1<<40 + 1}, Probes: []uint64{2}, NVals: nv}, uops,
